@@ -162,6 +162,10 @@ def run(rep, tier):
         rep.ob(rc, "helper-call", args_ok and wr == [T.K(64, 0)], "helper call: arguments and result register",
                expected="call(f, r1, r2, r3, r4, r5) -> r0", found={"calls": len(r["calls"]), "written": [T.show(k) for k in wr], "args_ok": args_ok})
         good += 1
+    # the execution context each VM kind hands to the Cranelift code is part of "the same result for each kind
+    # of VM": the context rules of C09 that concern this engine are obligations here too
+    import props.c09 as c09
+    c09.run(rep, tier, parts=("cranelift", "ctor"))
     rep.trust("rustc front end / typed THIR", "clmodel.py: InstBuilder semantics from the Cranelift 0.127 documentation", "Cranelift's lowering",
               "imodel (validated against the ISA under C01)")
     rep.assume("little-endian 64-bit host", "in-bounds accesses (bounds checks are decided under C11)")
